@@ -7,6 +7,8 @@ import (
 	"io"
 	"os"
 	"path/filepath"
+	"regexp"
+	"runtime"
 	"strings"
 )
 
@@ -66,7 +68,7 @@ func verifC15NativeCheck(src, pat string, viaConfig bool) {
 	verifCheck(err == nil && len(all) >= 1, "lint-failed")
 	opts := &LinterOptions{}
 	if viaConfig {
-		must(os.WriteFile(filepath.Join(tmp, "r", ".github", "actionlint.yaml"), []byte("paths:\n  .github/workflows/*.yml:\n    ignore:\n      - "+pat+"\n"), 0o644))
+		must(os.WriteFile(filepath.Join(tmp, "r", ".github", "actionlint.yaml"), []byte("paths:\n  .github/workflows/*.yml:\n    ignore:\n      - '"+pat+"'\n"), 0o644))
 	} else {
 		opts.IgnorePatterns = []string{pat}
 	}
@@ -77,7 +79,7 @@ func verifC15NativeCheck(src, pat string, viaConfig bool) {
 	verifReach("linted")
 	want := 0
 	for _, e := range all {
-		if !strings.Contains(e.Message, pat) {
+		if !regexp.MustCompile(pat).MatchString(e.Message) {
 			want++
 		}
 	}
@@ -139,8 +141,22 @@ func verifC15NativeMultiRepo(wf string, order, format int) {
 	if format == 1 {
 		opts.Format = "{{range $ := .}}{{$.Message}}\n{{end}}"
 	}
+	// degree of parallelism: with one processor the per-file goroutines run only when the starter blocks
+	defer runtime.GOMAXPROCS(runtime.GOMAXPROCS(0))
+	for _, procs := range []int{runtime.NumCPU(), 2, 1} {
+		runtime.GOMAXPROCS(procs)
+		buf.Reset()
+		l, err := NewLinter(&buf, opts)
+		must(err)
+		errs, err := l.LintFiles(args, nil)
+		verifCheck(err == nil, "lint-failed")
+		for k, p := range paths {
+			verifCheckf(digest(errs, filepath.Base(p)) == single[k], "file-filtered-by-another-repository's-configuration", p)
+		}
+	}
 	l, err := NewLinter(&buf, opts)
 	must(err)
+	buf.Reset()
 	errs, err := l.LintFiles(args, nil)
 	verifCheck(err == nil, "lint-failed")
 	verifReach("linted")
